@@ -1186,6 +1186,8 @@ func main() {
 	out := vh.NewOut("C05", fl, "From XMT Require Import Base.Prelude Model.Exchange.", "case", "check",
 		"a history is non-trivial when at least two jobs were outstanding at the same time on one session, or a job was fragmented, or the session switched mode, or it re-keyed")
 	out.ShardSize = 12
+	// the empty history (also keeps the shard list non-empty when every history of a replay fails its oracle)
+	out.Add("Case 0 [] []", "empty", false, "no device, no step")
 	var hs []Hist
 	if fl.Replay != "" {
 		var rp struct {
